@@ -39,7 +39,10 @@ def empty_delimiter(ctx, binary):
         if "emptydelim-returned" in r.out:
             ctx.count("tokenize-string:empty-delimiter:returned")
             return
-        if "emptydelim-exception" in r.out or r.rc != 0:
+        if "emptydelim-rejected" in r.out:
+            ctx.count("tokenize-string:empty-delimiter:exception")
+            return
+        if "emptydelim-memory" in r.out or r.rc != 0:
             outcomes.append("memory exhausted: " + (r.out.splitlines()[-1] if r.out.strip() else "rc=%s %s" % (r.rc, r.err[-200:])))
             break
         outcomes.append("rc=%s" % r.rc)
